@@ -173,6 +173,10 @@ static void htp_gzip_decompressor_end(htp_decompressor_gzip_t *drec) {
         inflateEnd(&drec->stream);
         drec->zlib_initialized = 0;
     }
+
+    // Whatever is in the output buffer has been handed out already.
+    drec->stream.next_out = drec->buffer;
+    drec->stream.avail_out = GZIP_BUF_SIZE;
 }
 
 /**
